@@ -72,6 +72,20 @@ def run_property(pid, tier, seed, replay=None):
                 oracle_failures.append((c, i, f))
             if len(samples) < 6 and mod.nontrivial(c, i) and idx % max(1, len(cases) // 6) == 0:
                 samples.append({"case": c[:300], "model": m[:300], "impl": i[:300]})
+        if hasattr(mod, "followups"):
+            # second round: implementation-only queries derived from the first-round outputs (metamorphic oracles)
+            fu, spans = [], []
+            for c, i in zip(cases, impl_out):
+                lst = mod.followups(c, i) or []
+                spans.append((len(fu), len(lst)))
+                fu.extend(lst)
+            fu_out = run_driver(IMPLDRV, fu, timeout=timeout) if fu else []
+            evaluations += len(fu)
+            for (c, i, (a, n)) in zip(cases, impl_out, spans):
+                if n:
+                    f = mod.oracle2(c, i, fu[a:a + n], fu_out[a:a + n])
+                    if f:
+                        oracle_failures.append((c, i, f))
         if not samples and cases:
             samples.append({"case": cases[0][:300], "model": model_out[0][:300], "impl": impl_out[0][:300]})
 
